@@ -26,6 +26,7 @@ pub mod prelude {
     impl<T: Key + ?Sized> Key for &T { fn key(&self) -> i64 { (**self).key() } }
     impl<T: Key + ?Sized> Key for &mut T { fn key(&self) -> i64 { (**self).key() } }
     impl<T: Key + ?Sized> Key for Box<T> { fn key(&self) -> i64 { (**self).key() } }
+    impl<T> Key for *const T { fn key(&self) -> i64 { *self as usize as i64 } }
     impl<T: Key> Key for Option<T> { fn key(&self) -> i64 { match self { None => -1, Some(v) => 1 + v.key() * 2 } } }
     impl<T: Key> Key for Vec<T> { fn key(&self) -> i64 { self.iter().fold(self.len() as i64, |a, b| a * 31 + b.key()) } }
     impl<T: Key, const N: usize> Key for [T; N] { fn key(&self) -> i64 { self.iter().fold(N as i64, |a, b| a * 31 + b.key()) } }
@@ -45,6 +46,31 @@ pub mod prelude {
         }
     }
     impl Key for Inc { fn key(&self) -> i64 { self.0 as i64 } }
+
+    // ---------------------------------------------------------------- Decoy: inherent methods named like the trait methods
+    // The std traits are derived and behave normally. The inherent methods of the same names give observably wrong
+    // answers: generated code that reaches a field through method-call syntax (`field.clone()`, `field.into()`,
+    // `Ty::default()`) instead of the fully qualified trait function gets these.
+    #[derive(Debug, Clone, Copy, PartialEq, Eq, PartialOrd, Ord, Hash, Default)]
+    pub struct Decoy(pub u8);
+    #[allow(clippy::should_implement_trait)]
+    impl Decoy {
+        pub fn clone(&self) -> Decoy { Decoy(self.0.wrapping_add(50)) }
+        pub fn clone_from(&mut self, _source: &Decoy) {}
+        pub fn eq(&self, _o: &Decoy) -> bool { true }
+        pub fn ne(&self, _o: &Decoy) -> bool { true }
+        pub fn cmp(&self, _o: &Decoy) -> Ordering { Ordering::Equal }
+        pub fn partial_cmp(&self, _o: &Decoy) -> Option<Ordering> { None }
+        pub fn hash<H: Hasher>(&self, state: &mut H) { state.write_u8(0xEE) }
+        pub fn fmt(&self, f: &mut fmt::Formatter<'_>) -> fmt::Result { f.write_str("DECOY") }
+        pub fn default() -> Decoy { Decoy(77) }
+        pub fn into(self) -> u16 { 999 }
+    }
+    impl Key for Decoy { fn key(&self) -> i64 { self.0 as i64 } }
+    impl From<Decoy> for u16 { fn from(v: Decoy) -> u16 { v.0 as u16 } }
+    impl From<Decoy> for u32 { fn from(v: Decoy) -> u32 { v.0 as u32 } }
+    impl From<Decoy> for u64 { fn from(v: Decoy) -> u64 { v.0 as u64 } }
+    impl From<Decoy> for i64 { fn from(v: Decoy) -> i64 { v.0 as i64 } }
 
     // a small fieldless enum used as a niche-carrying payload
     #[derive(Debug, Clone, Copy, PartialEq, Eq, PartialOrd, Ord, Hash, Default)]
@@ -119,6 +145,7 @@ pub mod prelude {
     pub fn m_into_string<T: Key>(v: T) -> String { format!("m:{}", v.key()) }
     pub fn m_into_str<T: Key>(v: T) -> &'static str { if v.key() % 2 == 0 { "m-even" } else { "m-odd" } }
     pub fn m_into_wrap<T: Key>(v: T) -> Wrap { Wrap(v.key().wrapping_add(9000)) }
+    pub fn m_into_none<T, U>(_v: T) -> Option<U> { None }
 
     // Into target wrapper with From impls for the integer panel
     #[derive(Debug, Clone, Copy, PartialEq, Eq, PartialOrd, Ord, Hash, Default)]
